@@ -26,6 +26,11 @@ FIRST = {
     "S04h-evict-pending-zero-runtime-profile": ("missed (the worker model did not tell pending from available profiles; every loading strategy took 3 us)", "C04 worker_machine models the pending and the available profile sets after every operation; loading strategies take 0 or 3 us"),
     "S18h-scheduled-terminal-join-not-released": ("missed (deep states too rare; the harness's `run`-like path required SCHEDULED where the simulator has RELEASED)", "C18 graph_states gained the operations run (release what is due, place and start a runnable task), finish_next and plan_join (a join placed ahead of its parents)"),
     "S07h-only-last-untaken-branch-reported": ("missed by C07 (caught by C06 cancel_row_count: the tasks are cancelled, only the report of it is lost, which is C06's clause; same change as S06g)", None),
+    "S01i-deallocate-credits-every-matching-instance": ("missed (no capacity vector had an 'any'-id instance next to another instance of its type, as the repository's own tests configure workers)", "C01 greedy worlds configure a quarter of the clusters with an 'any'-id first instance per type (the placement-row clause now accepts an id owned by several workers); C04 gained any_capacity_ledger: aggregate ledger of such vectors under allocate / allocate_multiple / deallocate / copy"),
+    "S06i-sink-tasks-cached": ("missed by every check (only reachable through the API: a TaskGraph that grows after its sinks were asked for)", "C17 task_job_graphs builds a second TaskGraph task by task (TaskGraph.add_task) and asks for sources, sinks, is_complete after every addition; C06 has no simulator-reachable trigger for it"),
+    "S08i-csv-reader-tables-shared-across-files": ("missed (every trace was read by its own CSVReader)", "C08: half of the traces are read by one CSVReader after a companion trace (the run's own trace with renamed graphs), as analyze.py passes several paths; the reconstruction must not depend on what was read before"),
+    "S11i-stale-remaining-time-after-unschedule": ("missed (no state held a withdrawn plan, and the oracle asked the task itself for the worst-case runtime of a strategy-less decision)", "scheduler-input states for C11 contain tasks whose earlier plan was withdrawn (schedule + unschedule); the runtime charged to a strategy-less (Z3) decision is computed from the strategies, not read from Task.remaining_time"),
+    "S14i-tetrisched-running-parent-full-runtime": ("missed (running tasks were never parents of offered tasks, and every miss in a partially-executed case was attributed to finding F12)", "C14 partially_executed_running: chains whose first task is already running; a miss is attributed to F12 only if the task cannot be added when running tasks reserve their full runtime from now, otherwise it is a new signature"),
     "S17b-stale-topological-order-cache": ("missed", "C17 gained graph_history: all clauses re-asked after every add_node/add_child/remove on one Graph object"),
     "S01b-reload-profile-skips-booking": ("missed", None),
     "S11e-ilp-skips-precedence-for-scheduled-children": ("missed (state never built)", "scheduler-input states for C11 may contain children that an earlier invocation planned ahead (SCHEDULED after a RUNNING/SCHEDULED parent)"),
